@@ -82,9 +82,35 @@ func vfActivity(typ string, nActors, nObj, objMode int, objType string) *vfAct {
 func (w *vfWorld) vfGetDefault(id *url.URL) vocab.Type {
 	idp := streams.NewJSONLDIdProperty()
 	idp.Set(id)
-	switch vfUFInt("storedKind", id.String(), 0, 5) {
+	maxKind := 5
+	if w.hostile {
+		maxKind = 8
+	}
+	sk := vfUFInt("storedKind", id.String(), 0, maxKind)
+	if w.smallWorld {
+		vfAssume(sk == 0 || sk == 1 || sk == 3, "small world: stored values are Notes, Collections or Follows")
+	}
+	switch sk {
 	case 5:
 		return nil // nothing stored under this id
+	case 6: // hostile: a Follow without actor
+		f := streams.NewActivityStreamsFollow()
+		f.SetJSONLDId(idp)
+		op := streams.NewActivityStreamsObjectProperty()
+		op.AppendIRI(vfURL("stored.follow.object"))
+		f.SetActivityStreamsObject(op)
+		return f
+	case 7: // hostile: a Follow without object
+		f := streams.NewActivityStreamsFollow()
+		f.SetJSONLDId(idp)
+		ap := streams.NewActivityStreamsActorProperty()
+		ap.AppendIRI(w.actorIRI)
+		f.SetActivityStreamsActor(ap)
+		return f
+	case 8: // hostile: an actor without inbox
+		p := streams.NewActivityStreamsPerson()
+		p.SetJSONLDId(idp)
+		return p
 	case 1:
 		items := w.colItems
 		if w.membersOf != nil {
@@ -175,7 +201,25 @@ func (w *vfWorld) vfGetDefault(id *url.URL) vocab.Type {
 // uninterpreted function of the IRI: 0 Person with inbox, 1 unreachable,
 // 2 garbled, 3 Note with that id, 4 Follow, 5 unknown type.
 func (w *vfWorld) vfRemoteDefault(iri string) (interface{}, int) {
-	switch vfUFInt("remoteKind", iri, 0, 5) {
+	maxKind := 5
+	if w.hostile {
+		maxKind = 10
+	}
+	rk := vfUFInt("remoteKind", iri, 0, maxKind)
+	if w.smallWorld {
+		vfAssume(rk == 0 || rk == 1 || rk == 3, "small world: remote documents are actors, Notes or unreachable")
+	}
+	switch rk {
+	case 6: // hostile: actor document without inbox
+		return vfDoc("Person", "id", iri), 0
+	case 7: // hostile: Follow without actor
+		return vfDoc("Follow", "id", iri, "object", vfIRI("remote.follow.object")), 0
+	case 8: // hostile: Follow without object
+		return vfDoc("Follow", "id", iri, "actor", vfIRI("remote.follow.actor")), 0
+	case 9: // hostile: an activity without actor and without id
+		return vfDoc("Like", "object", vfIRI("remote.like.object")), 0
+	case 10: // hostile: wrong-kind members
+		return vfDoc("Person", "id", vfFloat("remote.id.number"), "inbox", map[string]interface{}{"type": "Note"}), 0
 	case 1:
 		return nil, 1
 	case 2:
